@@ -191,6 +191,7 @@ class _C20(Spec):
     pid = "C20"
     lean_module = "Starcal.Props.C20"
     src_ties = ["Starcal.SrcTie.All"]
+    src_overflow = ["Starcal.SrcTie.NoOverflow"]
     expected = "distinct names, lookup returns the same calendar, 12 month names and abbreviations, every reported month length within [MinMonthLen, MaxMonthLen], AvgYearLen within 0.01 of the mean year length"
     rule = ("regenerated facts: Gen/CalMeta.lean and Gen/CalTables.lean are rewritten from /repo (go/ast constants = running registry) and the C20 theorems are re-proved over them; "
             "`byname meta`: model dump (from Gen) vs running registry, with names/lookup/12-names/mean-year-length evaluated on the real code; year blocks over years -6000..12000 for all 9 "
